@@ -61,14 +61,17 @@ Definition all_empty (qs : list (list ev)) : bool := forallb (fun q => match q w
 Inductive lbl :=
 | LStart (e : ev)
 | LEnd (e : ev)
-| LSched (parent child : ev).
+| LSched (parent child : ev)
+| LInject (child : ev).      (* scheduled by the external controller goroutine (while it holds the pause) *)
 
 Inductive epc :=
 | ECheck                (* hasMoreEvents *)
+| ELock                 (* pauseLock.Lock() *)
 | EDetermine            (* determineWhatToRun *)
 | EEmpty (j : nat)      (* emptyQueueChan: j queues received so far *)
 | EScan (i : nat)       (* runEventsUntilConflict: scanning queue i *)
 | EWait                 (* waitGroup.Wait *)
+| EUnlock               (* pauseLock.Unlock() *)
 | EDone.
 
 Inductive wstate :=
@@ -76,7 +79,18 @@ Inductive wstate :=
 | WRun (todo : list ev) (held : option nat)   (* remaining Schedule calls; queue checked out by the current call *)
 | WFinished.
 
-Inductive tid := TE | TW (i : nat).
+Inductive tid := TE | TW (i : nat) | TC.
+
+(** the external controller goroutine (a monitor / debugger front end): Pause,
+    Schedule an event at CurrentTime() + delay, Continue *)
+Inductive cop := CPause | CSched (id delay : N) (sec : bool) | CContinue.
+
+Record ext := mk_x {
+  x_plock : option bool;          (* pauseLock: None free, Some false held by Run, Some true held by the controller *)
+  x_script : list cop;            (* controller calls still to make *)
+  x_cheld : option (nat * ev);    (* controller inside Schedule: queue checked out, event to push *)
+  x_late : bool                   (* ghost: the controller scheduled after Run had returned *)
+}.
 
 Record est := mk_e {
   e_pc : epc; e_nq : nat; e_now : N; e_sec : bool;
@@ -87,11 +101,15 @@ Record est := mk_e {
   e_sched : list ev;            (* ghost: every event ever scheduled *)
   e_handled : list ev;          (* ghost: finished handlers, newest first *)
   e_trace : list lbl;           (* ghost: labels, newest first *)
-  e_rounds : list (N * bool)    (* ghost: (time, secondary?) of every round, newest first *)
+  e_rounds : list (N * bool);   (* ghost: (time, secondary?) of every round, newest first *)
+  e_ext : ext                   (* pause lock and controller *)
 }.
 
-Definition set_pc (s : est) pc := mk_e pc (e_nq s) (e_now s) (e_sec s) (e_pqs s) (e_sqs s) (e_pch s) (e_sch s) (e_ws s) (e_panic s) (e_sched s) (e_handled s) (e_trace s) (e_rounds s).
-Definition set_panic (s : est) := mk_e EDone (e_nq s) (e_now s) (e_sec s) (e_pqs s) (e_sqs s) (e_pch s) (e_sch s) (e_ws s) true (e_sched s) (e_handled s) (e_trace s) (e_rounds s).
+Definition set_pc (s : est) pc := mk_e pc (e_nq s) (e_now s) (e_sec s) (e_pqs s) (e_sqs s) (e_pch s) (e_sch s) (e_ws s) (e_panic s) (e_sched s) (e_handled s) (e_trace s) (e_rounds s) (e_ext s).
+Definition set_panic (s : est) := mk_e EDone (e_nq s) (e_now s) (e_sec s) (e_pqs s) (e_sqs s) (e_pch s) (e_sch s) (e_ws s) true (e_sched s) (e_handled s) (e_trace s) (e_rounds s) (e_ext s).
+
+Definition set_ext (s : est) (x : ext) : est :=
+  mk_e (e_pc s) (e_nq s) (e_now s) (e_sec s) (e_pqs s) (e_sqs s) (e_pch s) (e_sch s) (e_ws s) (e_panic s) (e_sched s) (e_handled s) (e_trace s) (e_rounds s) x.
 
 (** initial state: the events are scheduled before Run, each through Schedule
     (queue taken from the head of the channel, returned to its tail). *)
@@ -99,18 +117,22 @@ Definition push_init (e : ev) (s : est) : est :=
   if ev_sec e then
     match e_sch s with
     | [] => s
-    | q :: r => mk_e (e_pc s) (e_nq s) (e_now s) (e_sec s) (e_pqs s) (upd_nth q (q_insert e) (e_sqs s)) (e_pch s) (r ++ [q]) (e_ws s) (e_panic s) (e :: e_sched s) (e_handled s) (e_trace s) (e_rounds s)
+    | q :: r => mk_e (e_pc s) (e_nq s) (e_now s) (e_sec s) (e_pqs s) (upd_nth q (q_insert e) (e_sqs s)) (e_pch s) (r ++ [q]) (e_ws s) (e_panic s) (e :: e_sched s) (e_handled s) (e_trace s) (e_rounds s) (e_ext s)
     end
   else
     match e_pch s with
     | [] => s
-    | q :: r => mk_e (e_pc s) (e_nq s) (e_now s) (e_sec s) (upd_nth q (q_insert e) (e_pqs s)) (e_sqs s) (r ++ [q]) (e_sch s) (e_ws s) (e_panic s) (e :: e_sched s) (e_handled s) (e_trace s) (e_rounds s)
+    | q :: r => mk_e (e_pc s) (e_nq s) (e_now s) (e_sec s) (upd_nth q (q_insert e) (e_pqs s)) (e_sqs s) (r ++ [q]) (e_sch s) (e_ws s) (e_panic s) (e :: e_sched s) (e_handled s) (e_trace s) (e_rounds s) (e_ext s)
     end.
 
 Definition e_empty (nq : nat) : est :=
-  mk_e ECheck nq 0 false (repeat [] nq) (repeat [] nq) (seq 0 nq) (seq 0 nq) [] false [] [] [] [].
+  mk_e ECheck nq 0 false (repeat [] nq) (repeat [] nq) (seq 0 nq) (seq 0 nq) [] false [] [] [] [] (mk_x None [] None false).
 
 Definition e_init (nq : nat) (init : list ev) : est := fold_left (fun s e => push_init e s) init (e_empty nq).
+
+(** the same with a controller script *)
+Definition e_init_ctl (nq : nat) (init : list ev) (script : list cop) : est :=
+  set_ext (e_init nq init) (mk_x None script None false).
 
 Fixpoint all_finished (ws : list (ev * wstate)) : bool :=
   match ws with
@@ -121,30 +143,40 @@ Fixpoint all_finished (ws : list (ev * wstate)) : bool :=
 
 Section Engine.
   Variable prog : program.
+  (** [det_first = false] is the code: pauseLock.Lock(); determineWhatToRun(); runRound(); Unlock().
+      [det_first = true] is the reordering "determineWhatToRun(); pauseLock.Lock(); runRound()" (regression variant). *)
+  Variable det_first : bool.
 
   Definition round_qs (s : est) := if e_sec s then e_sqs s else e_pqs s.
 
   Definition step_engine (s : est) : option est :=
     match e_pc s with
     | ECheck =>
-        if all_empty (e_pqs s) && all_empty (e_sqs s) then Some (set_pc s EDone) else Some (set_pc s EDetermine)
+        if all_empty (e_pqs s) && all_empty (e_sqs s) then Some (set_pc s EDone)
+        else Some (set_pc s (if det_first then EDetermine else ELock))
+    | ELock =>
+        match x_plock (e_ext s) with
+        | None => Some (set_ext (set_pc s (if det_first then EEmpty 0 else EDetermine))
+                                (mk_x (Some false) (x_script (e_ext s)) (x_cheld (e_ext s)) (x_late (e_ext s))))
+        | Some _ => None
+        end
     | EDetermine =>
         let pt := earliest (e_pqs s) in
         let st := earliest (e_sqs s) in
         if pt <=? st
-        then Some (mk_e (EEmpty 0) (e_nq s) pt false (e_pqs s) (e_sqs s) (e_pch s) (e_sch s) (e_ws s) (e_panic s) (e_sched s) (e_handled s) (e_trace s) ((pt, false) :: e_rounds s))
-        else Some (mk_e (EEmpty 0) (e_nq s) st true (e_pqs s) (e_sqs s) (e_pch s) (e_sch s) (e_ws s) (e_panic s) (e_sched s) (e_handled s) (e_trace s) ((st, true) :: e_rounds s))
+        then Some (mk_e (if det_first then ELock else EEmpty 0) (e_nq s) pt false (e_pqs s) (e_sqs s) (e_pch s) (e_sch s) (e_ws s) (e_panic s) (e_sched s) (e_handled s) (e_trace s) ((pt, false) :: e_rounds s) (e_ext s))
+        else Some (mk_e (if det_first then ELock else EEmpty 0) (e_nq s) st true (e_pqs s) (e_sqs s) (e_pch s) (e_sch s) (e_ws s) (e_panic s) (e_sched s) (e_handled s) (e_trace s) ((st, true) :: e_rounds s) (e_ext s))
     | EEmpty j =>
         if (j <? e_nq s)%nat then
           if e_sec s then
             match e_sch s with
             | [] => None
-            | _ :: r => Some (mk_e (EEmpty (S j)) (e_nq s) (e_now s) (e_sec s) (e_pqs s) (e_sqs s) (e_pch s) r (e_ws s) (e_panic s) (e_sched s) (e_handled s) (e_trace s) (e_rounds s))
+            | _ :: r => Some (mk_e (EEmpty (S j)) (e_nq s) (e_now s) (e_sec s) (e_pqs s) (e_sqs s) (e_pch s) r (e_ws s) (e_panic s) (e_sched s) (e_handled s) (e_trace s) (e_rounds s) (e_ext s))
             end
           else
             match e_pch s with
             | [] => None
-            | _ :: r => Some (mk_e (EEmpty (S j)) (e_nq s) (e_now s) (e_sec s) (e_pqs s) (e_sqs s) r (e_sch s) (e_ws s) (e_panic s) (e_sched s) (e_handled s) (e_trace s) (e_rounds s))
+            | _ :: r => Some (mk_e (EEmpty (S j)) (e_nq s) (e_now s) (e_sec s) (e_pqs s) (e_sqs s) r (e_sch s) (e_ws s) (e_panic s) (e_sched s) (e_handled s) (e_trace s) (e_rounds s) (e_ext s))
             end
         else Some (set_pc s (EScan 0))
     | EScan i =>
@@ -154,28 +186,30 @@ Section Engine.
               if ev_time x =? e_now s then
                 (* pop and go tempWorkerRun *)
                 if e_sec s
-                then Some (mk_e (EScan i) (e_nq s) (e_now s) (e_sec s) (e_pqs s) (upd_nth i (fun _ => r) (e_sqs s)) (e_pch s) (e_sch s) (e_ws s ++ [(x, WSpawned)]) (e_panic s) (e_sched s) (e_handled s) (e_trace s) (e_rounds s))
-                else Some (mk_e (EScan i) (e_nq s) (e_now s) (e_sec s) (upd_nth i (fun _ => r) (e_pqs s)) (e_sqs s) (e_pch s) (e_sch s) (e_ws s ++ [(x, WSpawned)]) (e_panic s) (e_sched s) (e_handled s) (e_trace s) (e_rounds s))
+                then Some (mk_e (EScan i) (e_nq s) (e_now s) (e_sec s) (e_pqs s) (upd_nth i (fun _ => r) (e_sqs s)) (e_pch s) (e_sch s) (e_ws s ++ [(x, WSpawned)]) (e_panic s) (e_sched s) (e_handled s) (e_trace s) (e_rounds s) (e_ext s))
+                else Some (mk_e (EScan i) (e_nq s) (e_now s) (e_sec s) (upd_nth i (fun _ => r) (e_pqs s)) (e_sqs s) (e_pch s) (e_sch s) (e_ws s ++ [(x, WSpawned)]) (e_panic s) (e_sched s) (e_handled s) (e_trace s) (e_rounds s) (e_ext s))
               else if ev_time x <? e_now s then Some (set_panic s)
               else (* later event: give the queue back *)
                 if e_sec s
-                then Some (mk_e (EScan (S i)) (e_nq s) (e_now s) (e_sec s) (e_pqs s) (e_sqs s) (e_pch s) (e_sch s ++ [i]) (e_ws s) (e_panic s) (e_sched s) (e_handled s) (e_trace s) (e_rounds s))
-                else Some (mk_e (EScan (S i)) (e_nq s) (e_now s) (e_sec s) (e_pqs s) (e_sqs s) (e_pch s ++ [i]) (e_sch s) (e_ws s) (e_panic s) (e_sched s) (e_handled s) (e_trace s) (e_rounds s))
+                then Some (mk_e (EScan (S i)) (e_nq s) (e_now s) (e_sec s) (e_pqs s) (e_sqs s) (e_pch s) (e_sch s ++ [i]) (e_ws s) (e_panic s) (e_sched s) (e_handled s) (e_trace s) (e_rounds s) (e_ext s))
+                else Some (mk_e (EScan (S i)) (e_nq s) (e_now s) (e_sec s) (e_pqs s) (e_sqs s) (e_pch s ++ [i]) (e_sch s) (e_ws s) (e_panic s) (e_sched s) (e_handled s) (e_trace s) (e_rounds s) (e_ext s))
           | [] =>
               if e_sec s
-              then Some (mk_e (EScan (S i)) (e_nq s) (e_now s) (e_sec s) (e_pqs s) (e_sqs s) (e_pch s) (e_sch s ++ [i]) (e_ws s) (e_panic s) (e_sched s) (e_handled s) (e_trace s) (e_rounds s))
-              else Some (mk_e (EScan (S i)) (e_nq s) (e_now s) (e_sec s) (e_pqs s) (e_sqs s) (e_pch s ++ [i]) (e_sch s) (e_ws s) (e_panic s) (e_sched s) (e_handled s) (e_trace s) (e_rounds s))
+              then Some (mk_e (EScan (S i)) (e_nq s) (e_now s) (e_sec s) (e_pqs s) (e_sqs s) (e_pch s) (e_sch s ++ [i]) (e_ws s) (e_panic s) (e_sched s) (e_handled s) (e_trace s) (e_rounds s) (e_ext s))
+              else Some (mk_e (EScan (S i)) (e_nq s) (e_now s) (e_sec s) (e_pqs s) (e_sqs s) (e_pch s ++ [i]) (e_sch s) (e_ws s) (e_panic s) (e_sched s) (e_handled s) (e_trace s) (e_rounds s) (e_ext s))
           end
         else Some (set_pc s EWait)
     | EWait =>
         if all_finished (e_ws s)
-        then Some (mk_e ECheck (e_nq s) (e_now s) (e_sec s) (e_pqs s) (e_sqs s) (e_pch s) (e_sch s) [] (e_panic s) (e_sched s) (e_handled s) (e_trace s) (e_rounds s))
+        then Some (mk_e EUnlock (e_nq s) (e_now s) (e_sec s) (e_pqs s) (e_sqs s) (e_pch s) (e_sch s) [] (e_panic s) (e_sched s) (e_handled s) (e_trace s) (e_rounds s) (e_ext s))
         else None
+    | EUnlock =>
+        Some (set_ext (set_pc s ECheck) (mk_x None (x_script (e_ext s)) (x_cheld (e_ext s)) (x_late (e_ext s))))
     | EDone => None
     end.
 
   Definition set_w (s : est) (i : nat) (w : ev * wstate) : est :=
-    mk_e (e_pc s) (e_nq s) (e_now s) (e_sec s) (e_pqs s) (e_sqs s) (e_pch s) (e_sch s) (upd_nth i (fun _ => w) (e_ws s)) (e_panic s) (e_sched s) (e_handled s) (e_trace s) (e_rounds s).
+    mk_e (e_pc s) (e_nq s) (e_now s) (e_sec s) (e_pqs s) (e_sqs s) (e_pch s) (e_sch s) (upd_nth i (fun _ => w) (e_ws s)) (e_panic s) (e_sched s) (e_handled s) (e_trace s) (e_rounds s) (e_ext s).
 
   Definition step_worker (i : nat) (s : est) : option est :=
     match nth_error (e_ws s) i with
@@ -183,7 +217,7 @@ Section Engine.
         (* tempWorkerRun: evt.Time() < now -> panic (never: popped events have time = now) *)
         Some (mk_e (e_pc s) (e_nq s) (e_now s) (e_sec s) (e_pqs s) (e_sqs s) (e_pch s) (e_sch s)
                    (upd_nth i (fun _ => (e, WRun (kids prog e) None)) (e_ws s))
-                   (e_panic s) (e_sched s) (e_handled s) (LStart e :: e_trace s) (e_rounds s))
+                   (e_panic s) (e_sched s) (e_handled s) (LStart e :: e_trace s) (e_rounds s) (e_ext s))
     | Some (e, WRun (c :: r) None) =>
         (* Schedule(c): past check, then receive a queue from the channel of c's kind *)
         if ev_time c <? e_now s then Some (set_panic s)
@@ -192,29 +226,77 @@ Section Engine.
           | [] => None
           | q :: ch => Some (mk_e (e_pc s) (e_nq s) (e_now s) (e_sec s) (e_pqs s) (e_sqs s) (e_pch s) ch
                                   (upd_nth i (fun _ => (e, WRun (c :: r) (Some q))) (e_ws s))
-                                  (e_panic s) (e_sched s) (e_handled s) (e_trace s) (e_rounds s))
+                                  (e_panic s) (e_sched s) (e_handled s) (e_trace s) (e_rounds s) (e_ext s))
           end
         else
           match e_pch s with
           | [] => None
           | q :: ch => Some (mk_e (e_pc s) (e_nq s) (e_now s) (e_sec s) (e_pqs s) (e_sqs s) ch (e_sch s)
                                   (upd_nth i (fun _ => (e, WRun (c :: r) (Some q))) (e_ws s))
-                                  (e_panic s) (e_sched s) (e_handled s) (e_trace s) (e_rounds s))
+                                  (e_panic s) (e_sched s) (e_handled s) (e_trace s) (e_rounds s) (e_ext s))
           end
     | Some (e, WRun (c :: r) (Some q)) =>
         (* queue.Push(c); chan <- queue *)
         if ev_sec c
         then Some (mk_e (e_pc s) (e_nq s) (e_now s) (e_sec s) (e_pqs s) (upd_nth q (q_insert c) (e_sqs s)) (e_pch s) (e_sch s ++ [q])
                         (upd_nth i (fun _ => (e, WRun r None)) (e_ws s))
-                        (e_panic s) (c :: e_sched s) (e_handled s) (LSched e c :: e_trace s) (e_rounds s))
+                        (e_panic s) (c :: e_sched s) (e_handled s) (LSched e c :: e_trace s) (e_rounds s) (e_ext s))
         else Some (mk_e (e_pc s) (e_nq s) (e_now s) (e_sec s) (upd_nth q (q_insert c) (e_pqs s)) (e_sqs s) (e_pch s ++ [q]) (e_sch s)
                         (upd_nth i (fun _ => (e, WRun r None)) (e_ws s))
-                        (e_panic s) (c :: e_sched s) (e_handled s) (LSched e c :: e_trace s) (e_rounds s))
+                        (e_panic s) (c :: e_sched s) (e_handled s) (LSched e c :: e_trace s) (e_rounds s) (e_ext s))
     | Some (e, WRun [] _) =>
         Some (mk_e (e_pc s) (e_nq s) (e_now s) (e_sec s) (e_pqs s) (e_sqs s) (e_pch s) (e_sch s)
                    (upd_nth i (fun _ => (e, WFinished)) (e_ws s))
-                   (e_panic s) (e_sched s) (e :: e_handled s) (LEnd e :: e_trace s) (e_rounds s))
+                   (e_panic s) (e_sched s) (e :: e_handled s) (LEnd e :: e_trace s) (e_rounds s) (e_ext s))
     | _ => None
+    end.
+
+  (** the controller goroutine.  Schedule(evt) = read now (past check), receive a queue
+      from the channel of the event's kind, push, send the queue back. *)
+  Definition is_done (pc : epc) : bool := match pc with EDone => true | _ => false end.
+
+  Definition step_ctl (s : est) : option est :=
+    let x := e_ext s in
+    match x_cheld x with
+    | Some (q, c) =>
+        match x_script x with
+        | CSched _ _ _ :: r =>
+            let x' := mk_x (x_plock x) r None (x_late x || is_done (e_pc s)) in
+            if ev_sec c
+            then Some (mk_e (e_pc s) (e_nq s) (e_now s) (e_sec s) (e_pqs s) (upd_nth q (q_insert c) (e_sqs s)) (e_pch s) (e_sch s ++ [q])
+                            (e_ws s) (e_panic s) (c :: e_sched s) (e_handled s) (LInject c :: e_trace s) (e_rounds s) x')
+            else Some (mk_e (e_pc s) (e_nq s) (e_now s) (e_sec s) (upd_nth q (q_insert c) (e_pqs s)) (e_sqs s) (e_pch s ++ [q]) (e_sch s)
+                            (e_ws s) (e_panic s) (c :: e_sched s) (e_handled s) (LInject c :: e_trace s) (e_rounds s) x')
+        | _ => None
+        end
+    | None =>
+        match x_script x with
+        | [] => None
+        | CPause :: r =>
+            match x_plock x with
+            | None => Some (set_ext s (mk_x (Some true) r None (x_late x)))
+            | Some _ => None
+            end
+        | CContinue :: r =>
+            match x_plock x with
+            | Some _ => Some (set_ext s (mk_x None r None (x_late x)))   (* Go lets any goroutine unlock *)
+            | None => Some (set_panic s)                                  (* unlock of unlocked mutex: fatal *)
+            end
+        | CSched id d sec :: _ =>
+            let c := mk_ev id (e_now s + d) sec in
+            if sec then
+              match e_sch s with
+              | [] => None
+              | q :: ch => Some (mk_e (e_pc s) (e_nq s) (e_now s) (e_sec s) (e_pqs s) (e_sqs s) (e_pch s) ch (e_ws s) (e_panic s)
+                                      (e_sched s) (e_handled s) (e_trace s) (e_rounds s) (mk_x (x_plock x) (x_script x) (Some (q, c)) (x_late x)))
+              end
+            else
+              match e_pch s with
+              | [] => None
+              | q :: ch => Some (mk_e (e_pc s) (e_nq s) (e_now s) (e_sec s) (e_pqs s) (e_sqs s) ch (e_sch s) (e_ws s) (e_panic s)
+                                      (e_sched s) (e_handled s) (e_trace s) (e_rounds s) (mk_x (x_plock x) (x_script x) (Some (q, c)) (x_late x)))
+              end
+        end
     end.
 
   Definition step (t : tid) (s : est) : option est :=
@@ -222,6 +304,7 @@ Section Engine.
     match t with
     | TE => step_engine s
     | TW i => step_worker i s
+    | TC => step_ctl s
     end.
 
   Definition e_run := run step.
@@ -269,6 +352,7 @@ Definition t_astep (a : pacc) (l : lbl) : option pacc :=
   let '(live, open) := a in
   match l with
   | LSched _ c => Some (c :: live, open)
+  | LInject c => Some (c :: live, open)
   | LStart e =>
       if mem_ev e live &&
          forallb (fun x => ev_time e <=? ev_time x) live &&
@@ -283,6 +367,7 @@ Definition ph_astep (a : pacc) (l : lbl) : option pacc :=
   let '(live, open) := a in
   match l with
   | LSched _ c => Some (c :: live, open)
+  | LInject c => Some (c :: live, open)
   | LStart e =>
       if ev_sec e && existsb (fun x => negb (ev_sec x) && (ev_time x =? ev_time e)) live
       then None else Some (live, e :: open)
@@ -298,8 +383,34 @@ Fixpoint arun {A} (f : A -> lbl -> option A) (tr : list lbl) (a : A) : option A 
 Definition accepts {A} (f : A -> lbl -> option A) (a0 : A) (tr : list lbl) : bool :=
   match arun f tr a0 with Some _ => true | None => false end.
 
+(** what the engine guarantees about phases: when a secondary starts, every live
+    primary of its instant was scheduled by a secondary handler of that instant
+    (the sibling corner) — never by the controller, never before the round.
+    State: live events, and the "corner" primaries. *)
+Definition ph2_astep (a : pacc) (l : lbl) : option pacc :=
+  let '(live, corner) := a in
+  match l with
+  | LSched p c =>
+      Some (c :: live, if ev_sec p && negb (ev_sec c) && (ev_time c =? ev_time p) then c :: corner else corner)
+  | LInject c => Some (c :: live, corner)
+  | LStart e =>
+      if ev_sec e && existsb (fun x => negb (ev_sec x) && (ev_time x =? ev_time e) && negb (mem_ev x corner)) live
+      then None else Some (live, corner)
+  | LEnd e => Some (remove_ev e live, remove_ev e corner)
+  end.
+
 Definition par_trace_ok (init : list ev) (tr : list lbl) : bool := accepts t_astep (init, []) tr.
 Definition phase_literal_ok (init : list ev) (tr : list lbl) : bool := accepts ph_astep (init, []) tr.
+Definition phase_guaranteed_ok (init : list ev) (tr : list lbl) : bool := accepts ph2_astep (init, []) tr.
+
+(** well-formed use of the pause protocol by the controller: Pause, Schedule*, Continue *)
+Fixpoint cwf (held : bool) (sc : list cop) : bool :=
+  match sc with
+  | [] => true
+  | CPause :: r => negb held && cwf true r
+  | CSched _ _ _ :: r => held && cwf held r
+  | CContinue :: r => held && cwf false r
+  end.
 
 (** programs that never schedule into the past *)
 Definition causal (prog : program) : Prop :=
